@@ -26,10 +26,16 @@ def descend (ns : Nodes) (trail : Bool) : Key → List Bytes → Option (Key × 
 
 def pushAll (ctx : Ctx) (ps : List (Bytes × Bytes)) : Ctx := ps.foldl (fun c kv => c.push kv.1 kv.2) ctx
 
-/-- the end of `getRoute`: the leaf at the node reached, its constraints validated on the context -/
-def finish (sat : Nat → Bytes → Bool) (ns : Nodes) (ctx : Ctx) (r : Key × Bool × List (Bytes × Bytes)) : Option (Leaf × Ctx) :=
+/-- the state of `getRoute` (context, local `overflow`) after a sequence of parameter writes -/
+def pushAllT (st : Ctx × List (Bytes × Bytes)) (ps : List (Bytes × Bytes)) : Ctx × List (Bytes × Bytes) :=
+  ps.foldl (fun c kv => pushT c kv.1 kv.2) st
+
+/-- the end of `getRoute`: the leaf at the node reached, the captured values named after it
+(`bindParamNames`), its constraints validated on that context -/
+def finish (sat : Nat → Bytes → Bool) (ns : Nodes) (st : Ctx × List (Bytes × Bytes)) (r : Key × Bool × List (Bytes × Bytes)) : Option (Leaf × Ctx) :=
   match (if r.2.1 then (getK ns r.1).wild else (getK ns r.1).leaf) with
-  | some lf => if validate sat lf.cons (pushAll ctx r.2.2) then some (lf, pushAll ctx r.2.2) else none
+  | some lf =>
+    if validate sat lf.cons (boundCtx false lf (pushAllT st r.2.2)) then some (lf, boundCtx false lf (pushAllT st r.2.2)) else none
   | none => none
 
 /-- a successful lookup: the leaf together with the context the handler sees -/
@@ -38,51 +44,57 @@ def okOf (r : Option Leaf × Ctx) : Option (Leaf × Ctx) := r.1.map fun lf => (l
 theorem pushAll_append (ctx : Ctx) (a b : List (Bytes × Bytes)) : pushAll ctx (a ++ b) = pushAll (pushAll ctx a) b := by
   simp [pushAll, List.foldl_append]
 
-theorem finish_push (sat : Nat → Bytes → Bool) (ns : Nodes) (ctx : Ctx) (push : List (Bytes × Bytes))
-    (r : Key × Bool × List (Bytes × Bytes)) :
-    finish sat ns ctx (r.1, r.2.1, push ++ r.2.2) = finish sat ns (pushAll ctx push) r := by
-  simp [finish, pushAll_append]
+theorem pushAllT_append (st : Ctx × List (Bytes × Bytes)) (a b : List (Bytes × Bytes)) :
+    pushAllT st (a ++ b) = pushAllT (pushAllT st a) b := by
+  simp [pushAllT, List.foldl_append]
 
-theorem walk_eq_descend (sat : Nat → Bytes → Bool) (ns : Nodes) (trail : Bool) (cur : Key) (ctx : Ctx) (segs : List Bytes) :
-    okOf (walkGen false sat ns trail cur ctx segs) = (descend ns trail cur segs).bind (finish sat ns ctx) := by
-  induction segs generalizing cur ctx with
+theorem finish_push (sat : Nat → Bytes → Bool) (ns : Nodes) (st : Ctx × List (Bytes × Bytes)) (push : List (Bytes × Bytes))
+    (r : Key × Bool × List (Bytes × Bytes)) :
+    finish sat ns st (r.1, r.2.1, push ++ r.2.2) = finish sat ns (pushAllT st push) r := by
+  simp [finish, pushAllT_append]
+
+theorem walk_eq_descend (sat : Nat → Bytes → Bool) (ns : Nodes) (trail : Bool) (cur : Key) (st : Ctx × List (Bytes × Bytes)) (segs : List Bytes) :
+    okOf (walkGen false false sat ns trail cur st segs) = (descend ns trail cur segs).bind (finish sat ns st) := by
+  induction segs generalizing cur st with
   | nil => simp [walkGen, descend, okOf]
   | cons seg rest ih =>
-    have hnext : ∀ (cur1 : Key) (ctx1 : Ctx) (push : List (Bytes × Bytes)), ctx1 = pushAll ctx push →
+    have hnext : ∀ (cur1 : Key) (st1 : Ctx × List (Bytes × Bytes)) (push : List (Bytes × Bytes)), st1 = pushAllT st push →
         okOf (if (rest.isEmpty && !trail) = true then
                 match (getK ns cur1).leaf with
-                | some lf => if validate sat lf.cons ctx1 = true then (some lf, ctx1) else (none, ctx1)
-                | none => (none, ctx1)
-              else walkGen false sat ns trail cur1 ctx1 rest) =
+                | some lf =>
+                  if validate sat lf.cons (boundCtx false lf st1) = true then (some lf, boundCtx false lf st1)
+                  else (none, boundCtx false lf st1)
+                | none => (none, st1.1)
+              else walkGen false false sat ns trail cur1 st1 rest) =
           (if (rest.isEmpty && !trail) = true then some (cur1, false, push)
-           else (descend ns trail cur1 rest).map fun r => (r.1, r.2.1, push ++ r.2.2)).bind (finish sat ns ctx) := by
-      intro cur1 ctx1 push hctx
+           else (descend ns trail cur1 rest).map fun r => (r.1, r.2.1, push ++ r.2.2)).bind (finish sat ns st) := by
+      intro cur1 st1 push hst
       by_cases hl : (rest.isEmpty && !trail) = true
-      · simp only [hl, if_true, Option.bind_some, finish, Bool.false_eq_true, if_false, ← hctx]
+      · simp only [hl, if_true, Option.bind_some, finish, Bool.false_eq_true, if_false, ← hst]
         cases (getK ns cur1).leaf with
         | none => simp [okOf]
-        | some lf => by_cases hv : validate sat lf.cons ctx1 = true <;> simp [okOf, hv]
+        | some lf => by_cases hv : validate sat lf.cons (boundCtx false lf st1) = true <;> simp [okOf, hv]
       · simp only [hl, Bool.false_eq_true, if_false]
-        rw [ih cur1 ctx1, hctx]
+        rw [ih cur1 st1, hst]
         cases descend ns trail cur1 rest with
         | none => simp
         | some r => simp [finish_push]
     simp only [walkGen, descend]
     by_cases hs : hasK ns (cur ++ [ESeg.s seg]) = true
     · simp only [hs, if_true]
-      exact hnext _ _ [] (by simp [pushAll])
+      exact hnext _ _ [] (by simp [pushAllT])
     · simp only [hs, if_false, Bool.false_eq_true]
       cases hp : (getK ns cur).pname with
       | some key =>
         simp only
-        exact hnext _ _ [(key, seg)] (by simp [pushAll])
+        exact hnext _ _ [(key, seg)] (by simp [pushAllT])
       | none =>
         simp only
         cases hw : (getK ns cur).wild with
         | none => simp [okOf]
         | some lf =>
-          simp only [Bool.false_or, Option.bind_some, finish, hw, if_true, pushAll, List.foldl_cons, List.foldl_nil]
-          by_cases hv : validate sat lf.cons (ctx.push wildParam (restOfPath (seg :: rest) trail)) = true <;> simp [okOf, hv]
+          simp only [Bool.false_or, Option.bind_some, finish, hw, if_true, pushAllT, List.foldl_cons, List.foldl_nil]
+          by_cases hv : validate sat lf.cons (boundCtx false lf (pushT st wildParam (restOfPath (seg :: rest) trail))) = true <;> simp [okOf, hv]
 
 
 /-! ### soundness of the descent (unconditional) -/
